@@ -53,7 +53,9 @@ func c15Cases() []c15Case {
 
 func runC15Case(c c15Case) (string, []explore.Violation) {
 	var vs []explore.Violation
-	bad := func(sig, detail string) { vs = append(vs, explore.Violation{Signature: sig, Detail: c.ID() + ": " + detail}) }
+	bad := func(sig, detail string) {
+		vs = append(vs, explore.Violation{Signature: sig, Detail: c.ID() + ": " + detail})
+	}
 	net := sim.NewNet()
 	net.PubSub.AutoDeliver = true
 	rPeer := net.AddPeer("R")
@@ -228,7 +230,7 @@ func payloadsOf(es []ipfslog.Entry) []string {
 func init() {
 	explore.Register(&explore.CheckDef{
 		ID: "C15", Level: "exploration",
-		Rule: "cross product on fresh worlds, each case in a worker process with crash attribution: persisted log shape {single-writer chains of 0..6 local entries, replicated-only chains, two heads (even and uneven), merged, three heads} x limit n in {-2 .. length+2} x how the limit is given {Load(n), MaxHistory=n with Load(-1), MaxHistory=n with Load(0)}; the database is reopened over the persisted cache with a fresh store object and loaded. Oracle: no panic, error or hang; exactly min(n,total) entries listed for n>0 (everything for n<=0), a subsequence of the full listing that contains the newest entry, and exactly the last n for single-writer logs. Non-trivial = limits different from -1.",
+		Rule:   "cross product on fresh worlds, each case in a worker process with crash attribution: persisted log shape {single-writer chains of 0..6 local entries, replicated-only chains, two heads (even and uneven), merged, three heads} x limit n in {-2 .. length+2} x how the limit is given {Load(n), MaxHistory=n with Load(-1), MaxHistory=n with Load(0)}; the database is reopened over the persisted cache with a fresh store object and loaded. Oracle: no panic, error or hang; exactly min(n,total) entries listed for n>0 (everything for n<=0), a subsequence of the full listing that contains the newest entry, and exactly the last n for single-writer logs. Non-trivial = limits different from -1.",
 		Units:  func(tier string) []explore.Unit { return explore.ChunkUnits("c15", 16) },
 		Budget: func(tier string) float64 { return 400 },
 		RunUnit: func(c *explore.Ctx) {
